@@ -16,6 +16,15 @@ impl<K, V> Default for HashMap<K, V> {
     }
 }
 
+impl<K: PartialEq, V: PartialEq> PartialEq for HashMap<K, V> {
+    fn eq(&self, other: &Self) -> bool {
+        self.items.len() == other.items.len()
+            && self.items.iter().all(|(k, v)| other.items.iter().any(|(k2, v2)| k == k2 && v == v2))
+    }
+}
+
+impl<K: Eq, V: Eq> Eq for HashMap<K, V> {}
+
 impl<K: PartialEq, V> HashMap<K, V> {
     pub fn new() -> Self {
         HashMap { items: Vec::new() }
@@ -26,33 +35,45 @@ impl<K: PartialEq, V> HashMap<K, V> {
     pub fn is_empty(&self) -> bool {
         self.items.is_empty()
     }
-    fn pos(&self, k: &K) -> Option<usize> {
+    fn pos<Q: ?Sized + PartialEq>(&self, k: &Q) -> Option<usize>
+    where
+        K: std::borrow::Borrow<Q>,
+    {
         let mut i = 0;
         while i < self.items.len() {
-            if self.items[i].0 == *k {
+            if self.items[i].0.borrow() == k {
                 return Some(i);
             }
             i += 1;
         }
         None
     }
-    pub fn contains_key(&self, k: &K) -> bool {
+    pub fn contains_key<Q: ?Sized + PartialEq>(&self, k: &Q) -> bool
+    where
+        K: std::borrow::Borrow<Q>,
+    {
         self.pos(k).is_some()
     }
-    pub fn get(&self, k: &K) -> Option<&V> {
+    pub fn get<Q: ?Sized + PartialEq>(&self, k: &Q) -> Option<&V>
+    where
+        K: std::borrow::Borrow<Q>,
+    {
         match self.pos(k) {
             Some(i) => Some(&self.items[i].1),
             None => None,
         }
     }
-    pub fn get_mut(&mut self, k: &K) -> Option<&mut V> {
+    pub fn get_mut<Q: ?Sized + PartialEq>(&mut self, k: &Q) -> Option<&mut V>
+    where
+        K: std::borrow::Borrow<Q>,
+    {
         match self.pos(k) {
             Some(i) => Some(&mut self.items[i].1),
             None => None,
         }
     }
     pub fn insert(&mut self, k: K, v: V) -> Option<V> {
-        match self.pos(&k) {
+        match self.pos::<K>(&k) {
             Some(i) => Some(std::mem::replace(&mut self.items[i].1, v)),
             None => {
                 self.items.push((k, v));
@@ -60,7 +81,10 @@ impl<K: PartialEq, V> HashMap<K, V> {
             }
         }
     }
-    pub fn remove(&mut self, k: &K) -> Option<V> {
+    pub fn remove<Q: ?Sized + PartialEq>(&mut self, k: &Q) -> Option<V>
+    where
+        K: std::borrow::Borrow<Q>,
+    {
         match self.pos(k) {
             Some(i) => Some(self.items.remove(i).1),
             None => None,
@@ -70,13 +94,13 @@ impl<K: PartialEq, V> HashMap<K, V> {
         self.items.clear()
     }
     pub fn entry(&mut self, k: K) -> Entry<'_, K, V> {
-        match self.pos(&k) {
+        match self.pos::<K>(&k) {
             Some(i) => Entry::Occupied(OccupiedEntry { map: self, idx: i }),
             None => Entry::Vacant(VacantEntry { map: self, key: k }),
         }
     }
-    pub fn iter(&self) -> impl Iterator<Item = (&K, &V)> {
-        self.items.iter().map(|(k, v)| (k, v))
+    pub fn iter(&self) -> Iter<'_, K, V> {
+        Iter { inner: self.items.iter() }
     }
     pub fn values(&self) -> impl Iterator<Item = &V> {
         self.items.iter().map(|(_, v)| v)
@@ -86,6 +110,27 @@ impl<K: PartialEq, V> HashMap<K, V> {
     }
     pub fn retain<F: FnMut(&K, &mut V) -> bool>(&mut self, mut f: F) {
         self.items.retain_mut(|(k, v)| f(k, v))
+    }
+}
+
+#[derive(Debug)]
+pub struct Iter<'a, K, V> {
+    inner: std::slice::Iter<'a, (K, V)>,
+}
+
+impl<'a, K, V> Clone for Iter<'a, K, V> {
+    fn clone(&self) -> Self {
+        Iter { inner: self.inner.clone() }
+    }
+}
+
+impl<'a, K, V> Iterator for Iter<'a, K, V> {
+    type Item = (&'a K, &'a V);
+    fn next(&mut self) -> Option<(&'a K, &'a V)> {
+        self.inner.next().map(|(k, v)| (k, v))
+    }
+    fn size_hint(&self) -> (usize, Option<usize>) {
+        self.inner.size_hint()
     }
 }
 
